@@ -345,7 +345,13 @@ pub fn exec_local_race(case: &RaceCase) -> Outcome {
 
 #[derive(Clone, Debug, Serialize, Deserialize)]
 pub enum ROp {
-    Update { shard: u8, gen: u8 },
+    Update {
+        shard: u8,
+        gen: u8,
+        /// 0 = Active, 1 = Splitting, 2 = PendingDeletion (a record the router learns but must not route to)
+        #[serde(default)]
+        state: u8,
+    },
     Invalidate(u8),
     Moved { shard: u8, gen: u8 },
 }
@@ -358,26 +364,34 @@ pub fn exec_router(case: &RouterCase) -> Outcome {
     use cardinalsin::sharding::ShardKey;
     let router = ShardRouter::new(std::time::Duration::from_secs(3600));
     let mut out = Outcome::pass();
-    let mk = |s: u8, gen: u8, marker: usize| ShardMetadata {
+    let mk = |s: u8, gen: u8, marker: usize, state: u8| ShardMetadata {
         shard_id: shard_id(s),
         generation: gen as u64,
         key_range: if s % 2 == 0 { (vec![0u8], vec![0x80u8]) } else { (vec![0x80u8], vec![0xffu8, 0xff]) },
         replicas: vec![],
-        state: ShardState::Active,
+        state: match state % 3 {
+            0 => ShardState::Active,
+            1 => ShardState::Splitting { new_shards: vec!["na".into(), "nb".into()] },
+            _ => ShardState::PendingDeletion { delete_after: 1 },
+        },
         min_time: marker as i64,
         max_time: 0,
     };
     let keys = [ShardKey::new(1, "m", 0), ShardKey::new(0x9000_0000, "m", 0)];
-    let mut model: [Option<(u64, i64)>; 2] = [None, None];
+    // per shard: (generation, marker, active) of the record the router must hold
+    let mut model: [Option<(u64, i64, bool)>; 2] = [None, None];
     let mut rejected = 0;
     for (i, op) in case.ops.iter().enumerate() {
         match op {
-            ROp::Update { shard, gen } => {
+            ROp::Update { shard, gen, state } => {
                 let s = (*shard % 2) as usize;
-                router.update_routing(mk(*shard, *gen, i));
+                router.update_routing(mk(*shard, *gen, i, *state));
+                if state % 3 != 0 {
+                    out.class("router-learns-a-non-active-record");
+                }
                 match model[s] {
-                    Some((g, _)) if (*gen as u64) < g => rejected += 1,
-                    _ => model[s] = Some((*gen as u64, i as i64)),
+                    Some((g, _, _)) if (*gen as u64) < g => rejected += 1,
+                    _ => model[s] = Some((*gen as u64, i as i64, state % 3 == 0)),
                 }
             }
             ROp::Invalidate(shard) => {
@@ -385,15 +399,17 @@ pub fn exec_router(case: &RouterCase) -> Outcome {
                 model[(*shard % 2) as usize] = None;
             }
             ROp::Moved { shard, gen } => {
-                router.handle_shard_moved(&shard_id(*shard), mk(*shard, *gen, i));
-                model[(*shard % 2) as usize] = Some((*gen as u64, i as i64));
+                router.handle_shard_moved(&shard_id(*shard), mk(*shard, *gen, i, 0));
+                model[(*shard % 2) as usize] = Some((*gen as u64, i as i64, true));
             }
         }
         for s in 0..2 {
             let got = router.get_shard(&keys[s]).map(|m| (m.generation, m.min_time));
-            if got != model[s] {
+            // a record that is not active is known (it fences older ones) but never routed to
+            let want = model[s].and_then(|(g, m, active)| if active { Some((g, m)) } else { None });
+            if got != want {
                 let sig = match (got, model[s]) {
-                    (Some((g, _)), Some((mg, _))) if g < mg => "router-older-generation-replaced-newer",
+                    (Some((g, _)), Some((mg, _, _))) if g < mg => "router-older-generation-replaced-newer",
                     _ => "router-cache-differs-from-model",
                 };
                 out.set_fail(sig, format!("after op {} ({:?}) router holds {:?} for shard {} but the model says {:?}", i, op, got, s, model[s]));
@@ -654,7 +670,7 @@ pub fn def() -> PropDef {
     PropDef {
         id: "C13",
         level: "exploration",
-        rule: "s3: 2-5 ObjectStoreMetadataClients each issuing 1-3 update_shard_metadata(shard of 2, state, expected in {absolute 0..4, read-current + {-1,0,+1}}) interleaved at object-store-request granularity (schedule + victim bias), shards pre-advanced to generation 0-3; non-trivial = two ops of different clients with the same (shard, expected) had overlapping request windows. local: sequential histories vs a generation model (non-trivial = a stale update was rejected after the shard reached generation >=2) plus a sampled multi-thread race (thorough). router: update/invalidate/moved sequences vs model (non-trivial = a stale update was rejected). split-writer: the production writer of shard records - a real ShardSplitter split (then resumes) on either back-end - scheduled request by request against a correct updater on another node that re-assigns the old shard's replicas 1-3 times (read, modify, write under the generation read, re-read on a stale rejection) at generated positions of the split's time line; the old shard's record is observed after every step: generation rises by exactly one per version, a replica assignment only ever changes to a fresh acknowledged one (never back: that is content based on an older generation stored under a newer one), PendingDeletion is never undone, every acknowledged update appears, the final record carries the last acknowledged assignment; non-trivial = an update was acknowledged and the old shard was deactivated in the same history.",
+        rule: "s3: 2-5 ObjectStoreMetadataClients each issuing 1-3 update_shard_metadata(shard of 2, state, expected in {absolute 0..4, read-current + {-1,0,+1}}) interleaved at object-store-request granularity (schedule + victim bias), shards pre-advanced to generation 0-3; non-trivial = two ops of different clients with the same (shard, expected) had overlapping request windows. local: sequential histories vs a generation model (non-trivial = a stale update was rejected after the shard reached generation >=2) plus a sampled multi-thread race (thorough). router: update (records of any state: Active, Splitting, PendingDeletion - the latter two are learnt, fence older records, but are never routed to) / invalidate / moved sequences vs model (non-trivial = a stale update was rejected). split-writer: the production writer of shard records - a real ShardSplitter split (then resumes) on either back-end - scheduled request by request against a correct updater on another node that re-assigns the old shard's replicas 1-3 times (read, modify, write under the generation read, re-read on a stale rejection) at generated positions of the split's time line; the old shard's record is observed after every step: generation rises by exactly one per version, a replica assignment only ever changes to a fresh acknowledged one (never back: that is content based on an older generation stored under a newer one), PendingDeletion is never undone, every acknowledged update appears, the final record carries the last acknowledged assignment; non-trivial = an update was acknowledged and the old shard was deactivated in the same history.",
         assumptions: &[
             "SimStore conforms to conditional-write semantics",
             "LocalMetadataClient under real threads is only sampled (no control over OS thread interleaving)",
@@ -690,7 +706,7 @@ pub fn def() -> PropDef {
                     strategy: |_| {
                         prop::collection::vec(
                             prop_oneof![
-                                6 => (0u8..2, 0u8..6).prop_map(|(shard, gen)| ROp::Update { shard, gen }),
+                                6 => (0u8..2, 0u8..6, prop_oneof![3 => Just(0u8), 1 => Just(1u8), 1 => Just(2u8)]).prop_map(|(shard, gen, state)| ROp::Update { shard, gen, state }),
                                 1 => (0u8..2).prop_map(ROp::Invalidate),
                                 1 => (0u8..2, 0u8..6).prop_map(|(shard, gen)| ROp::Moved { shard, gen }),
                             ],
